@@ -125,6 +125,16 @@ NOTES = {
     "C17-M13": ("off-by-one in the instance field limit", "a module with exactly 256 exports imported in whole-module form"),
     "C20-M11": ("dead classes are released without dropping their payload (method and field tables leak)", "classes that die: a class declaration executed repeatedly in a long run"),
     "C20-M12": ("the old generation is swept only once it has doubled since the last sweep of any kind", "objects that survive one collection and then die, produced continuously under the shipped schedule"),
+    "C04-M11": ("continue_unwind no longer clears the 'selecting a clause' flag", "a callback run by native code holding a try whose filters all reject the error, and a matching try outside the native call"),
+    "C04-M12": ("break/continue pop the handlers of all open tries, not only of those begun inside the loop", "a loop inside a try block of the same function, a break or continue that executes, then an error or the normal end of that try block"),
+    "C05-M11": ("a list's forwarding chain marks only the first and the live block", "a list held outside the running fiber's stack that moved at least twice through that reference, a collection, later use"),
+    "C05-M12": ("chain iterator stops tracing the parts it has drained while size_hint still reads them", "a chain advanced by hand past its first part, a collection, then len() or list() on it"),
+    "C05-M13": ("a running compilation keeps only itself and its direct parent alive", "function nesting of depth >= 3 and a collection triggered by an allocation of the innermost compiler"),
+    "C09-M11": ("a buffered channel stops marking the wrapped part of its ring buffer", "a buffered channel whose ring has wrapped, computed strings in the wrapped part, a collection, then an equal string compared with the received one"),
+    "C14-M11": ("NaN-boxed Display prints whole numbers through i64", "a whole number of magnitude >= 2^63 or a negative zero named in a native's error message (absent map key)"),
+    "C14-M12": ("NaN-boxed Value::kind() is off by one at the sign bit", "a negative zero produced at run time that is printed, converted or used as a key"),
+    "C19-M11": ("names of earlier prompt entries are not captured by the first nesting level only", "a variable of an earlier line read by a lambda nested inside a function of a later line, then a call"),
+    "C19-M12": ("cache slot numbering continues from the most recently registered module", "an import of a file module at the prompt, a call-site function before and another after it, called with one class and different methods"),
 }
 
 
@@ -240,7 +250,10 @@ def main():
                      "worktree, nothing from /verif): `patch.diff`, its demonstration, its own README and `meta.json`. Every change compiles and "
                      "passes the pinned suite; every demonstration passes on the clean tree and fails with the change (re-confirmed with "
                      "`tools/confirm_mutant.py`). Results are for the quick tier at `VERIF_SEED=1` (a result line names the tier when it is another one), evaluated with `tools/eval_mutant.py` on top of "
-                     "the repaired `/repo` HEAD (or on the commit the change was written against when a later repair touches the same lines).\n\n")
+                     "the repaired `/repo` HEAD (a change that a later repair conflicts with was carried over by hand: `patch_head.diff`). Rounds 1-3 "
+                     "(M1-M10) were evaluated with `/repo` at af5bbd0 and the harness of that moment, round 4 (M11-M13) with `/repo` at 7908ebf and "
+                     "the final harness; the logs are in `eval_logs/`. `superseded` = the change no longer manifests on HEAD (its own "
+                     "demonstration passes with the change applied) because a later repair removed what it needs.\n\n")
         handle.write("| id | mechanism | result | suite green + demo discriminates (re-confirmed) |\n|---|---|---|---|\n")
         for row in rows:
             handle.write("| %s | %s | %s | %s |\n" % row)
